@@ -12,6 +12,7 @@ import (
 	"encoding/json"
 	"fmt"
 	"reflect"
+	"sort"
 	"strings"
 	"sync"
 	"sync/atomic"
@@ -90,6 +91,7 @@ func setConsts(vm *otto.Otto, consts map[string]float64) error {
 type caseT struct {
 	Mode  string `json:"mode"`
 	Name  []int  `json:"name"`
+	Named bool   `json:"named"`
 	Cont  string `json:"cont"`
 	K     string `json:"k"`
 	Where string `json:"where"`
@@ -388,6 +390,93 @@ func runCase(vm *otto.Otto, l *line) (any, string, error) {
 			return M{"thr": "", "go": bridge.TaggedForm(*got)}, stmt, nil
 		}
 		return nil, src, fmt.Errorf("unknown mode %q", c.Mode)
+	case "mapkey":
+		// one operation by property name on a bridged map[K]int (K: every integer kind, plain and named type; string)
+		kn := c.K
+		if c.Named {
+			kn = "named:" + kn
+		}
+		kt, err := bridge.ElemType(kn)
+		if err != nil {
+			return nil, src, err
+		}
+		intT := reflect.TypeOf(int(0))
+		mp := reflect.MakeMap(reflect.MapOf(kt, intT))
+		var init []reflect.Value
+		switch {
+		case c.K == "string":
+			for _, k := range []string{"0", "1", "2"} {
+				init = append(init, reflect.ValueOf(k).Convert(kt))
+			}
+		case kt.Kind() >= reflect.Int && kt.Kind() <= reflect.Int64:
+			lo, hi := reflect.New(kt).Elem(), reflect.New(kt).Elem()
+			lo.SetInt(int64(-1) << uint(kt.Bits()-1))
+			hi.SetInt(int64(1)<<uint(kt.Bits()-1) - 1)
+			init = append(init, lo, hi)
+			for _, i := range []int64{-1, 0, 1, 2} {
+				v := reflect.New(kt).Elem()
+				v.SetInt(i)
+				init = append(init, v)
+			}
+		default:
+			hi := reflect.New(kt).Elem()
+			hi.SetUint(uint64(1)<<uint(kt.Bits()) - 1)
+			init = append(init, hi)
+			for _, i := range []uint64{0, 1, 2} {
+				v := reflect.New(kt).Elem()
+				v.SetUint(i)
+				init = append(init, v)
+			}
+		}
+		keyText := func(k reflect.Value) string { return fmt.Sprint(k.Interface()) }
+		sort.Slice(init, func(i, j int) bool { return keyText(init[i]) < keyText(init[j]) })
+		for i, k := range init {
+			mp.SetMapIndex(k, reflect.ValueOf(i+1))
+		}
+		if err := vm.Set("m", mp.Interface()); err != nil {
+			return nil, src, err
+		}
+		name := jsx.StrLit(c.Name)
+		var stmt string
+		switch c.Mode {
+		case "read":
+			stmt = "RET = m[" + name + "]"
+		case "write":
+			stmt = "RET = (m[" + name + "] = 9)"
+		case "delete":
+			stmt = "RET = delete m[" + name + "]"
+		case "in":
+			stmt = "RET = (" + name + " in m)"
+		case "hasown":
+			stmt = "RET = Object.prototype.hasOwnProperty.call(m, " + name + ")"
+		default:
+			return nil, src, fmt.Errorf("unknown mode %q", c.Mode)
+		}
+		thr := runStmt(vm, wrap(stmt))
+		obs := M{"thr": thr, "ret": M{"t": "undef"}}
+		if thr == "" {
+			var rv any
+			r, e := vm.Run("JSON.stringify(OBS(RET))")
+			if e != nil || json.Unmarshal([]byte(r.String()), &rv) != nil {
+				rv = M{"unobservable": fmt.Sprint(e)}
+			}
+			obs["ret"] = rv
+		}
+		ks := mp.MapKeys()
+		sort.Slice(ks, func(i, j int) bool { return keyText(ks[i]) < keyText(ks[j]) })
+		keys, vals := []any{}, []any{}
+		for _, k := range ks {
+			keys = append(keys, bridge.Units(keyText(k)))
+			vals = append(vals, mp.MapIndex(k).Interface())
+		}
+		obs["keys"], obs["vals"] = keys, vals
+		var jk any
+		r, e := vm.Run("JSON.stringify(Object.keys(m).sort(CMPU).map(UNITS))")
+		if e != nil || json.Unmarshal([]byte(r.String()), &jk) != nil {
+			jk = M{"unobservable": fmt.Sprint(e)}
+		}
+		obs["jskeys"] = jk
+		return obs, stmt, nil
 	case "pfield":
 		// x.<sel> handed to a Go function taking a pointer: identity and visibility of the callee's write
 		d, err := bridge.BuildDoc(c.D)
